@@ -25,7 +25,7 @@ RULE = ("every public routine of the 20 anchored analysis modules (functions, co
         "interleavings).  A case = one call; non-trivial = the call returned normally (calls that raise are listed under "
         "not_exercised and still have their inputs hashed); distinct = distinct (world, routine, variant, history position)")
 TRUSTED_BASE = [
-    "Lean 4.33 kernel; axioms propext, Quot.sound (no Classical.choice needed); decide +kernel over the regenerated IR",
+    "Lean 4.33 kernel; axioms propext, Quot.sound (Classical.choice only through simp in C18_written_is_returned); decide +kernel over the regenerated IR",
     "PROVED for the IR semantics (Pms/Model/Purity.lean: variables denote sets of reachable buffers; executions = arbitrary finite "
     "sequences of the routine's statements; arbitrary aliasing choices and written values): check ⇒ entry-time buffers unchanged in every "
     "reachable state (C18_sound), across arbitrary sessions of accepted routines (C18_interleaving, C18_repeatable), and the object "
